@@ -30,16 +30,16 @@ SPEC = {
 
 def bounds(tier):
     if tier == "quick":
-        return {"cyclic": "W-DIG(n<=4, arcs<=7) + W-NAMED; X: all, singletons, pairs", "dag": "W-DAG(n<=4) all; n=5 with X=all/singletons",
+        return {"cyclic": "W-DIG(n<=4, arcs<=7) + W-NAMED + cyclic 5-node digraphs with <=6 arcs; X: all, singletons, pairs", "dag": "W-DAG(n<=4) all; n=5 with X=all/singletons",
                 "flow": "W-DAG(n<=4, arcs<=6), flows = superpositions of <=3 paths, weights<=3; n=5, arcs<=7: weights<=2", "brute_force_walk_len": "|E|+3"}
-    return {"cyclic": "W-DIG(n<=4, arcs<=8) + W-NAMED; X: every non-empty subset for |E|<=6 else all/singletons/pairs",
+    return {"cyclic": "W-DIG(n<=4, arcs<=8) + W-NAMED + cyclic 5-node digraphs with <=6 arcs; X: every non-empty subset for |E|<=6 else all/singletons/pairs",
             "dag": "W-DAG(n<=5); X: all, singletons, pairs, constraints", "flow": "W-DAG(n<=5, arcs<=7), <=3 paths, weights<=3",
             "brute_force_walk_len": "|E|+3"}
 
 
 def cases(tier, seed):
     quick = tier == "quick"
-    cyc = world.dig_shapes(4, 7 if quick else 8) + world.named_shapes()
+    cyc = world.dig_shapes(4, 7 if quick else 8) + world.named_shapes() + [x for x in world.dig_shapes(5, 6, selfloops=False) if x[0] == 5 and not world.is_acyclic(*x)]
     seen = set()
     for idx, shp in enumerate(cyc):
         if shp in seen:
